@@ -51,6 +51,8 @@ pub enum ProgramRegistryError {
     FunctionWithUnstorableType { func_id: FunctionId, ty: ConcreteTypeId },
     #[error("Function `{0}` points to non existing entry point statement.")]
     FunctionNonExistingEntryPoint(FunctionId),
+    #[error("Function `{0}`'s parameters do not match its signature.")]
+    FunctionSignatureMismatch(FunctionId),
     #[error("#{0}: Libfunc invocation input count mismatch")]
     LibfuncInvocationInputCountMismatch(StatementIdx),
     #[error("#{0}: Libfunc invocation branch count mismatch")]
@@ -155,6 +157,15 @@ impl<TType: GenericType, TLibfunc: GenericLibfunc> ProgramRegistry<TType, TLibfu
                         ty: ty.clone(),
                     }));
                 }
+            }
+            // Callers are typed by the signature and the body by the parameters: they must agree.
+            if !itertools::equal(
+                func.params.iter().map(|param| &param.ty),
+                func.signature.param_types.iter(),
+            ) {
+                return Err(Box::new(ProgramRegistryError::FunctionSignatureMismatch(
+                    func.id.clone(),
+                )));
             }
             if func.entry_point.0 >= program.statements.len() {
                 return Err(Box::new(ProgramRegistryError::FunctionNonExistingEntryPoint(
